@@ -16,7 +16,9 @@ V = "/verif"
 sys.path.insert(0, V + "/engine")
 OUT = "/scratch/corpus"
 SRC = os.environ.get("CORPUS_SRC", "/repo")      # a frozen copy of the tree the references were frozen on (git archive), so that /repo may move
-WORK = "/scratch/corpus-work"
+WORK = os.environ.get("CORPUS_WORK", "/scratch/corpus-work")
+TGT = os.environ.get("CORPUS_TARGET", V + "/.cache/target")      # a private target dir (and lock) lets several builders run side by side
+LOCK = (TGT + ".lock") if os.environ.get("CORPUS_TARGET") else V + "/.cache/lock"
 
 
 def sh(cmd, **kw):
@@ -66,10 +68,10 @@ def main():
     # warm-up: one full extraction of the unpatched copy, so that every member has a fingerprint for this path; afterwards cargo itself
     # re-checks (and the driver re-emits) only the crates a patch changes and their dependents; all other fact files are the base tree's
     sh("rsync -a --delete --exclude /target --exclude /.git %s/ %s/" % (SRC, repo))
-    lock = open(V + "/.cache/lock", "w")
+    lock = open(LOCK, "w")
     fcntl.flock(lock, fcntl.LOCK_EX)      # the extraction of a check / selftest running at the same time deletes member fingerprints
     try:
-        r = sh("%s/bin/extract.sh %s/warm %s %s/.cache/target" % (V, WORK, repo, V))
+        r = sh("%s/bin/extract.sh %s/warm %s %s" % (V, WORK, repo, TGT))
     finally:
         fcntl.flock(lock, fcntl.LOCK_UN)
         lock.close()
@@ -85,7 +87,7 @@ def main():
         # the lock is taken BEFORE the files are touched: cargo hashes workspace-relative paths, so every checkout (a check on /repo, a selftest
         # copy, this copy) shares the member fingerprints of the one target dir; an extraction of another checkout that ran between the
         # patching and this extraction would leave fingerprints newer than the patched files and cargo would call them fresh
-        lock = open(V + "/.cache/lock", "w")
+        lock = open(LOCK, "w")
         fcntl.flock(lock, fcntl.LOCK_EX)
         try:
             sh("rsync -a --delete --exclude /target --exclude /.git %s/ %s/" % (SRC, repo))
@@ -98,7 +100,7 @@ def main():
                 if os.path.exists(os.path.join(repo, f)):
                     os.utime(os.path.join(repo, f))
             prev_files = files
-            r = sh("CKB_FACTS_INCREMENTAL=1 %s/bin/extract.sh %s %s %s/.cache/target" % (V, out, repo, V))
+            r = sh("CKB_FACTS_INCREMENTAL=1 %s/bin/extract.sh %s %s %s" % (V, out, repo, TGT))
         finally:
             fcntl.flock(lock, fcntl.LOCK_UN)
             lock.close()
